@@ -102,6 +102,26 @@ def check_cleartext_phase(ctx, f, B, outs, followed):
     has_tls = 'ldap3::conn::LdapConnAsync::create_tls_stream' in f.hir
     if has_tls:
         ctx.add('W2.one-operation-driver', DRIVER, loc(B.root), len(single) == 1, 'no single function (connection, oneshot::Sender<Result<connection>>): the one-operation driver used for the StartTLS exchange was not found: anchor lost')
+    if has_tls and len(single) == 1:
+        # "one turn": the function the spawned task runs is the driver loop in a mode of its own - not the mode of the public
+        # `drive()`, which serves the request channel until the last handle is gone (what the one-operation mode does with the
+        # connection when its loop ends is C04 L6's)
+        LOOP = C.loop_path.split('::{closure')[0]
+        def modes(p):
+            Bp = hirq.Body(f, f.body(p))
+            ctx.analysed['bodies'].add(p)
+            ms = []
+            for o in absx.Interp(f, Bp, unroll=1, combinators=True).run(root=Bp.root['body'] if Bp.root['k'] == 'Closure' else Bp.root):
+                loops = [e for e in o.st.ev if e[0] == 'call' and e[1] == LOOP]
+                ms.append(tuple(e[2][1] if len(e[2]) == 2 and e[2][0] == ('param', 'self') else ('unk',) for e in loops))
+            return ms
+        pub = [p for p in (DRIVER + '::drive',) if p in f.hir]
+        cont = {m for ms in (modes(p) for p in pub) for path in ms for m in path}
+        mine = modes(single[0])
+        ok = bool(pub) and bool(mine) and all(len(path) == 1 and path[0][0] == 'ctor' and not path[0][2] and path[0] not in cont for path in mine)
+        ctx.add('W2.one-operation-driver', 'mode', loc(f.body(single[0])['body']), ok,
+                'the function whose task carries the StartTLS exchange (%s) does not run the driver loop exactly once in a mode of its own: %s; drive() uses %s - in the continuous mode the cleartext connection keeps serving the request channel' % (
+                    single[0].rsplit('::', 1)[-1], sorted({absx.fmt(m) for path in mine for m in path}) or 'no call of the loop', sorted(absx.fmt(m) for m in cont)))
     kind_of = lambda t: ('handle' if t == HANDLE else 'connection' if t == DRIVER
                          else 'framed transport' if re.match(r'tokio_util::codec::framed::Framed(Parts)?<ldap3::conn::ConnType\b', t) else 'transport' if t == 'ldap3::conn::ConnType'
                          else 'socket' if t == 'tokio::net::tcp::stream::TcpStream' else None)
